@@ -70,3 +70,10 @@ func (v *VerifWorker) Recover() error { return v.w.recover() }
 
 // VerifReconcileTables runs the table-set reconciliation of the replication manager once.
 func (m *Manager) VerifReconcileTables() error { return m.reconcileTables() }
+
+// Start starts the worker's own routines (lease, statistics, replication) exactly as the
+// replication manager does.
+func (v *VerifWorker) Start() { v.w.Start() }
+
+// Close stops them and returns the table lease, as the replication manager does.
+func (v *VerifWorker) Close() { v.w.Close() }
